@@ -411,7 +411,37 @@ func genSqlToken() {
 	}
 
 	// ---- Scan: case lists of the inner switch, simple tokens, letter prefixes, comment prefixes ----
-	if fd := funcDecl(tok, "Tokenizer", "Scan"); fd != nil {
+	// Scan is a loop around scanToken (one round); before the repair of the recursion it was the round itself
+	scanFn := "Scan"
+	scanLoop := ""
+	for _, d := range tf.Decls {
+		if fd, ok := d.(*ast.FuncDecl); ok && fd.Name.Name == "scanToken" && fd.Recv != nil {
+			scanFn = "scanToken"
+		}
+	}
+	if scanFn == "scanToken" {
+		if fd := funcDecl(tok, "Tokenizer", "Scan"); fd != nil {
+			scanLoop = renderStmts(fd.Body.List)
+		}
+	}
+	lf.def("scanLoopShape", "String", strconv.Quote(scanLoop), "Tokenizer.Scan when it is a loop around scanToken (\"\" = Scan is the round itself and scanMySQLSpecificComment re-enters it recursively)")
+	rescanNeg := false
+	for _, d := range tf.Decls {
+		if gd, ok := d.(*ast.GenDecl); ok && gd.Tok == token.CONST {
+			for _, sp := range gd.Specs {
+				vs := sp.(*ast.ValueSpec)
+				if len(vs.Names) == 1 && vs.Names[0].Name == "rescan" && len(vs.Values) == 1 {
+					if ue, ok := vs.Values[0].(*ast.UnaryExpr); ok && ue.Op == token.SUB {
+						if bl, ok := ue.X.(*ast.BasicLit); ok && bl.Kind == token.INT && bl.Value != "0" {
+							rescanNeg = true
+						}
+					}
+				}
+			}
+		}
+	}
+	lf.def("rescanIsNegative", "Bool", boolStr(rescanNeg), "const rescan < 0: the start-over marker is no token type")
+	if fd := funcDecl(tok, "Tokenizer", scanFn); fd != nil {
 		var outer *ast.SwitchStmt
 		for _, st := range fd.Body.List {
 			if s, ok := st.(*ast.SwitchStmt); ok {
